@@ -13,6 +13,7 @@ import (
 	"os/exec"
 	"sort"
 	"strings"
+	"sync"
 	"time"
 
 	"hop.computer/hop/common"
@@ -24,8 +25,11 @@ import (
 
 var worker = flag.Bool("vx-worker", false, "internal")
 var transportBin = flag.String("bin-transport", "", "the transport-level harness (c17t), built with transport rewritten for the scheduler")
-var raceBin = flag.String("bin-race", "", "free-running twin built with -race")
+var raceQBin = flag.String("bin-raceq", "", "this harness built with -race and without the scheduler rewrite (free-running pass, queue programs)")
+var raceTBin = flag.String("bin-racet", "", "the transport harness built with -race and without the scheduler rewrite (free-running pass)")
+var racePass = flag.Bool("race-pass", false, "internal: child mode of the -race build, runs the free-running pass and reports the races")
 var raceChild = flag.Int("race-runs", 0, "internal: run the scenarios free-running this many times")
+var raceShard = flag.String("race-shard", "0/1", "internal: i/n, run the programs with index = i mod n")
 
 // ---- programs over the queue ----
 
@@ -334,6 +338,10 @@ func main() {
 		raceTwin(*raceChild)
 		return
 	}
+	if *racePass {
+		racePassMain()
+		return
+	}
 	r := vk.New("C17", "model_checking")
 	if r.ReplayFile != "" {
 		var c struct {
@@ -343,6 +351,14 @@ func main() {
 		}
 		if err := r.LoadReplay(&c); err != nil {
 			r.EngineError("replay: %v", err)
+			r.Finish()
+		}
+		if strings.HasPrefix(c.Scenario, "race-") {
+			// a race report is evidence in itself (the detector has no false positives); the
+			// free-running pass cannot be replayed deterministically
+			fmt.Println("race report recorded by the free-running pass (not replayable deterministically; re-run the check):")
+			b, _ := os.ReadFile(r.ReplayFile)
+			fmt.Println(string(b))
 			r.Finish()
 		}
 		if c.Scenario == "" && *transportBin != "" {
@@ -425,34 +441,82 @@ func main() {
 	if *transportBin != "" {
 		r.RunChild("transport", *transportBin)
 	}
-	if *raceBin != "" {
-		r.RunChild("race", *raceBin, "-race-runs", map[bool]string{true: "40", false: "8"}[r.Thorough()])
+	if *raceQBin != "" {
+		r.RunChild("race-queue", *raceQBin, "-race-pass")
 	}
-	r.Assume("sequentially consistent interleavings at synchronisation operations; data races are the business of the separate free-running -race pass over the same program bodies (sub-result race_pass)")
+	if *raceTBin != "" {
+		r.RunChild("race-transport", *raceTBin, "-race-pass")
+	}
+	r.Assume("sequentially consistent interleavings at synchronisation operations; unsynchronised accesses (data races) are invisible to a cooperative scheduler and are looked for by the separate free-running -race pass over the same program bodies (children race-queue / race-transport): that pass observes the schedules the Go runtime happens to produce, so a reported race is a definite violation while silence is not a proof of absence")
 	r.Finish()
 }
 
-// raceTwin runs every program free (real goroutines, real time scaled down by the programs' own
-// short timers) under the race detector; a detected race makes the process exit non-zero with the
-// detector's report, which the parent turns into a violation.
+// raceTwin (internal mode of the -race build) runs the programs of one shard free: real
+// goroutines, real time scaled down by the programs' own short timers. The race detector
+// writes its reports to stderr and the process carries on (GORACE halt_on_error=0).
 func raceTwin(runs int) {
-	r := vk.New("C17", "model_checking")
+	var si, sn int
+	fmt.Sscanf(*raceShard, "%d/%d", &si, &sn)
+	if sn <= 0 {
+		sn = 1
+	}
 	progs := programs(false)
 	n := 0
 	for k := 0; k < runs; k++ {
-		for _, p := range progs {
-			if len(p.Threads) < 2 {
+		for i, p := range progs {
+			if len(p.Threads) < 2 || i%sn != si {
 				continue
 			}
-			sc := queueScenarioFree(p)
-			sc()
+			queueScenarioFree(p)()
 			n++
 		}
 	}
-	r.EvalN(int64(n))
-	r.Set("race_pass_runs", n)
-	r.Distinct("race-pass")
-	r.Distinct("race-pass-2")
+	fmt.Println(n)
+}
+
+// racePassMain is the child mode of the -race build: it runs the shards as subprocesses of
+// itself, parses the detector's reports and turns every race between two accesses made by
+// repository code into a violation.
+func racePassMain() {
+	r := vk.New("C17", "model_checking")
+	runs := 6
+	if r.Thorough() {
+		runs = 40
+	}
+	self, _ := os.Executable()
+	shards := r.Workers
+	var mu sync.Mutex
+	total := 0
+	r.Parallel(shards, func(i int) {
+		reps, timedOut, err := vk.RaceExec(self, []string{"-race-runs", fmt.Sprint(runs), "-race-shard", fmt.Sprintf("%d/%d", i, shards)}, "hop.computer/hop", 10*time.Minute)
+		mu.Lock()
+		defer mu.Unlock()
+		if timedOut {
+			r.Cap(fmt.Sprintf("free-running shard %d did not end within 10 minutes", i))
+		} else if err != nil {
+			r.EngineError("free-running shard %d: %v", i, err)
+		}
+		for _, rr := range reps {
+			if !rr.InRepo("hop.computer/hop") {
+				r.AddInt("race_reports_outside_repository_code", 1)
+				continue
+			}
+			r.Violation("race:"+rr.Key(), fmt.Sprintf("data race between %s and %s (free-running -race pass over the DeadlineChan programs)", rr.A, rr.B), map[string]any{"scenario": "race-queue", "report": rr.Text})
+		}
+		total++
+	})
+	np := 0
+	for _, p := range programs(false) {
+		if len(p.Threads) >= 2 {
+			np++
+		}
+	}
+	r.EvalN(int64(np * runs))
+	r.Set("race_pass_runs_per_program", runs)
+	r.Set("race_pass_programs", np)
+	r.Distinct("race-pass-queue")
+	r.Set("race_pass_exhaustive", false)
+	r.SetRule(fmt.Sprintf("free-running -race pass: the %d DeadlineChan programs with at least two threads, the unmodified common package built with the race detector, real goroutines, %d runs each; every detector report whose two accesses are both in repository code is a violation. Supplementary to the scheduler-controlled exploration (which cannot see unsynchronised accesses); not exhaustive.", np, runs))
 	r.Finish()
 }
 
